@@ -136,7 +136,10 @@ func (r provResult) String() string {
 	return fmt.Sprintf("n=%d e=%s end=%s", len(r.entries), strings.Join(r.entries, ","), r.end)
 }
 
-func runAmmo(kv map[string]string, data []byte) string {
+func runAmmo(kv map[string]string, data []byte) string { return runAmmoOn(memFS, kv, data) }
+
+// runAmmoOn: fs is memFS, or a wrapper of it that injects an I/O fault (round2.go); the ammo file is always written to memFS
+func runAmmoOn(fs afero.Fs, kv map[string]string, data []byte) string {
 	format := kv["fmt"]
 	name := tmpName("ammo", ".txt")
 	if err := afero.WriteFile(memFS, name, data, 0o644); err != nil {
@@ -149,7 +152,7 @@ func runAmmo(kv map[string]string, data []byte) string {
 			passes = 1
 		}
 		limit, _ := strconv.Atoi(kv["limit"])
-		p := grpcjson.NewProvider(memFS, grpcjson.Config{File: name, Passes: passes, Limit: limit, ContinueOnError: kv["coe"] == "1"})
+		p := grpcjson.NewProvider(fs, grpcjson.Config{File: name, Passes: passes, Limit: limit, ContinueOnError: kv["coe"] == "1"})
 		res := driveProvider(p, func(a core.Ammo, ok bool) (string, bool) {
 			if !ok {
 				return "", false
@@ -178,7 +181,22 @@ func runAmmo(kv map[string]string, data []byte) string {
 		}
 	}
 	conf := config.Config{Decoder: config.DecoderType(format), File: name, Passes: hpasses, Limit: hlimit, Preload: kv["pre"] == "1", ContinueOnError: kv["coe"] == "1"}
-	p, err := httpprovider.NewProvider(memFS, conf)
+	// hdrs=<hex>,<hex>: the `headers` option of the provider config (each one a `[key: value]` string)
+	if kv["hdrs"] != "" {
+		for _, h := range strings.Split(kv["hdrs"], ",") {
+			b, err := hex.DecodeString(h)
+			if err != nil {
+				return "BADINPUT"
+			}
+			conf.Headers = append(conf.Headers, string(b))
+		}
+	}
+	// src=uris: the uri decoder fed through the `uris` option instead of a file
+	if kv["src"] == "uris" && format == "uri" {
+		conf.File = ""
+		conf.Uris = strings.Split(string(data), "\n")
+	}
+	p, err := httpprovider.NewProvider(fs, conf)
 	if err != nil {
 		return "n=0 e= end=ctor-" + errClass(err)
 	}
